@@ -70,6 +70,9 @@ let () =
   let maxshow = 25 in
   let cases = ref 0 and steps = ref 0 and mism = ref 0 and states = ref 0 and panics = ref 0 in
   let k = [| kcp_new Z0; kcp_new Z0 |] in
+  (* ms the output callback of endpoint e blocks per datagram (op "tx"); 0 = instantaneous: the plain
+     flush/input/update are run, > 0: flush_t/input_t/update_t (FlushT.v; equal at 0 by c18c_*_zero) *)
+  let tx = [| 0; 0 |] in
   let bad = ref false and stepno = ref 0 and last_op = ref "" in
   let field_hist : (string, int) Hashtbl.t = Hashtbl.create 16 in
   let report fields impl model =
@@ -95,6 +98,7 @@ let () =
             | [g; a; b] ->
                 let g = List.map kv g and a = List.map kv a and b = List.map kv b in
                 let conv = z_of_int (zs (List.assoc "conv" g)) and stream = zs (List.assoc "stream" g) in
+                tx.(0) <- 0; tx.(1) <- 0;
                 k.(0) <- with_cfg (kcp_new conv) a stream;
                 k.(1) <- with_cfg (kcp_new conv) b stream
             | _ -> failwith "bad cfg line")
@@ -138,13 +142,15 @@ let () =
                 let ((k', n), d) = recv k.(e) (z_of_int (zs (a 0))) in
                 cmp_res "recv" (Ok (k', zi n ^ " " ^ hex_of_bytes d))
             | "input" ->
-                cmp_res "input" (match input k.(e) (bytes_of_hex (a 2)) (a 0 = "1") (a 1 = "1") now with
+                cmp_res "input" (match (if tx.(e) = 0 then input k.(e) (bytes_of_hex (a 2)) (a 0 = "1") (a 1 = "1") now
+                                        else input_t k.(e) (bytes_of_hex (a 2)) (a 0 = "1") (a 1 = "1") now (z_of_int tx.(e))) with
                     | Ok ((k', r), o) -> Ok (k', zi r ^ " " ^ outs_str o) | Panic w -> Panic w)
             | "flush" ->
-                cmp_res "flush" (match flush k.(e) (z_of_int (zs (a 0))) now with
+                cmp_res "flush" (match (if tx.(e) = 0 then flush k.(e) (z_of_int (zs (a 0))) now
+                                        else flush_t k.(e) (z_of_int (zs (a 0))) now (z_of_int tx.(e))) with
                     | Ok ((k', nx), o) -> Ok (k', zi nx ^ " " ^ outs_str o) | Panic w -> Panic w)
             | "update" ->
-                cmp_res "update" (match update k.(e) now with
+                cmp_res "update" (match (if tx.(e) = 0 then update k.(e) now else update_t k.(e) now (z_of_int tx.(e))) with
                     | Ok (k', o) -> Ok (k', outs_str o) | Panic w -> Panic w)
             | "check" ->
                 let r = zi (check k.(e) now) in
@@ -154,6 +160,7 @@ let () =
                 cmp_res "setmtu" (Ok (k', zi r))
             | "nodelay" ->
                 k.(e) <- set_nodelay k.(e) (z_of_int (zs (a 0))) (z_of_int (zs (a 1))) (z_of_int (zs (a 2))) (z_of_int (zs (a 3)))
+            | "tx" -> tx.(e) <- zs (a 0)
             | "wnd" ->
                 k.(e) <- set_wndsize k.(e) (z_of_int (zs (a 0))) (z_of_int (zs (a 1)))
             | _ -> failwith ("bad op: " ^ op))
